@@ -28,8 +28,12 @@ THEOREMS = [
     dict(name="Snow.C06.run_admissible_partial", clause="all clauses of C06 for every recorded column of a run — "
          "ASSUMING at every step the side condition q·dt <= sigma·m·lambda(1-w_s) for warmed ice-containing vials "
          "(monitored here); 'finite' is vacuous over the reals and monitored on the floats", strength="partial"),
-    dict(name="Snow.C06.ice_iff_after_nucleation", clause="ice exactly from the recorded nucleation onwards (per step: "
-         "recorded statistics kept by ice-containing vials, set exactly when a liquid vial nucleates)", strength="full"),
+    dict(name="Snow.C06.ice_iff_after_nucleation", clause="per step: recorded statistics kept by ice-containing vials, "
+         "set exactly when a liquid vial nucleates", strength="full"),
+    dict(name="Snow.C06.ice_iff_recorded", clause="run level: in column j a vial contains ice iff the nucleation time in "
+         "the final statistics exists and is <= t[j] (given admissibility of all columns)", strength="full"),
+    dict(name="Snow.C06.run_ice_iff_recorded", clause="the same under the hypotheses of run_admissible_partial (inherits "
+         "its side condition)", strength="partial"),
     dict(name="Snow.C06.side_condition_needed", clause="the side condition is not derivable: a warmed vial with tiny "
          "sigma leaves sigma > 0 in exact arithmetic", strength="boundary-witness"),
     dict(name="Snow.C06.nonvacuous", clause="the stable range is inhabited (default solution, K=20, dt=2)",
